@@ -419,13 +419,20 @@ pub fn int_bits(r: &mut Rng, bits: u32, signed: bool, f: Fmt) -> u64 {
             }
         }
         7..=8 => {
-            // rounding boundary neighbourhoods of the target format: midpoints between integer posits
+            // rounding boundary neighbourhoods of the target format: midpoints between
+            // neighbouring posits inside one binade [2^s, 2^(s+1)), biased to the binade's ends
             let f1 = Fmt { n: f.n + 1, es: f.es };
-            let lim = ((bits as i64) + 1).min(((f.n as i64 - 2) << f.es) + 1);
+            let lim = (bits as i64).min(((f.n as i64 - 2) << f.es) + 1);
             let s = r.range(0, lim);
-            let base = Val::pow2(s).encode_bits(f);
-            let off = r.below(1u64 << (f.n - 2).min(20));
-            let p = (base + off).min(f.maxpos() - 1);
+            let lo = Val::pow2(s).encode_bits(f);
+            let hi = Val::pow2(s + 1).encode_bits(f).max(lo + 1);
+            let span = hi - lo;
+            let off = match r.below(4) {
+                0 => r.below(4).min(span - 1),
+                1 => span - 1 - r.below(4).min(span - 1),
+                _ => r.below(span),
+            };
+            let p = (lo + off).min(f.maxpos() - 1);
             let mid = Val::decode(f1, (p << 1) | 1);
             let iv = mid.to_int_rne_clamped(0, u64::MAX as i128).unwrap_or(0) as u64;
             iv.wrapping_add(r.range(-2, 2) as u64)
